@@ -2281,7 +2281,7 @@ def _verify_dominances_hyperparameters(dominances, dominance_type,
                        "Seeing dominant_dim %s and weak_dim %s" %
                        (dominance_type.capitalize(), dominant_dim, weak_dim))
     for dim in [dominant_dim, weak_dim]:
-      if monotonicities[dim] != 1:
+      if not monotonicities or monotonicities[dim] != 1:
         raise ValueError("%s dominance constraint's dimensions must be "
                          "monotonic. Dimension %d is not monotonic." %
                          (dominance_type.capitalize(), dim))
@@ -2378,8 +2378,8 @@ def verify_hyperparameters(lattice_sizes,
                          "'monotonicities': %s, 'unimodalities': %s" %
                          (i, monotonicities, unimodalities))
 
-  all_trusts = utils.canonicalize_trust((edgeworth_trusts or []) +
-                                        (trapezoid_trusts or [])) or []
+  all_trusts = utils.canonicalize_trust(
+      list(edgeworth_trusts or []) + list(trapezoid_trusts or [])) or []
   main_dims, cond_dims, trapezoid_cond_dims = set(), set(), set()
   dim_pairs_direction = {}
   for i, constraint in enumerate(all_trusts):
@@ -2393,7 +2393,7 @@ def verify_hyperparameters(lattice_sizes,
     if not isinstance(main_dim, int) or not isinstance(cond_dim, int):
       raise ValueError("Trust constraint dimensions must be integers. Seeing "
                        "main_dim %s and cond_dim %s" % (main_dim, cond_dim))
-    if monotonicities[main_dim] != 1:
+    if not monotonicities or monotonicities[main_dim] != 1:
       raise ValueError("Trust constraint's main feature must be "
                        "monotonic. Dimension %s is not monotonic." % (main_dim))
     if (main_dim, cond_dim) in dim_pairs_direction and dim_pairs_direction[
